@@ -30,6 +30,9 @@ type c20Universe struct {
 
 func c20File(id string, props J, defs J, extra ...any) string {
 	s := J{"$id": id, "type": "object", "properties": props}
+	if id == "" {
+		delete(s, "$id")
+	}
 	if defs != nil {
 		s["$defs"] = defs
 	}
@@ -67,6 +70,9 @@ func c20Universes(level int) []c20Universe {
 	// same base name in two directories: x/main.json -> ./common.json (x/common.json), y/main.json -> ./common.json (y/common.json)
 	us = append(us, mk("same-basename", [4]string{"x/mainx.json", "x/common.json", "y/mainy.json", "y/common.json"},
 		[4]J{{"c": ref("./common.json")}, {"fromX": str}, {"c": ref("./common.json")}, {"fromY": in}}, [4]J{}, noExtra))
+	// the same, with the file:// scheme (relative)
+	us = append(us, mk("same-basename-file-scheme", [4]string{"x/mainx.json", "x/common.json", "y/mainy.json", "y/common.json"},
+		[4]J{{"c": ref("file://common.json")}, {"fromX": str}, {"c": ref("file://common.json")}, {"fromY": in}}, [4]J{}, noExtra))
 	common := func(field string, t J) J {
 		return J{"Common": J{"type": "object", "properties": J{field: t}, "required": A{field}}}
 	}
@@ -76,6 +82,18 @@ func c20Universes(level int) []c20Universe {
 			{"c1": str, "viaAnyOf": J{"anyOf": A{ref("#/$defs/Common"), J{"type": "object", "properties": J{"cx": in}, "required": A{"cx"}}}}},
 			{"d1": in, "plain": ref("#/$defs/Common")}},
 		[4]J{common("fromA", str), common("fromB", in), common("fromC", J{"type": "boolean"}), common("fromD", J{"type": "number"})}, noExtra))
+	// the same universe without any $id (all documents then share the empty id)
+	noID := mk("same-def-name/no-id", flat,
+		[4]J{{"a1": str, "viaAllOf": J{"allOf": A{ref("#/$defs/Common"), J{"type": "object", "properties": J{"ax": in}}}}},
+			{"b1": in, "viaAllOf": J{"allOf": A{ref("#/$defs/Common"), J{"type": "object", "properties": J{"bx": str}}}}},
+			{"c1": str, "viaAnyOf": J{"anyOf": A{ref("#/$defs/Common"), J{"type": "object", "properties": J{"cx": in}, "required": A{"cx"}}}}},
+			{"d1": in, "plain": ref("#/$defs/Common")}},
+		[4]J{common("fromA", str), common("fromB", in), common("fromC", J{"type": "boolean"}), common("fromD", J{"type": "number"})}, noExtra)
+	noID.ids = []string{"", "", "", ""}
+	for i := range noID.files {
+		noID.files[i].Content = strings.Replace(noID.files[i].Content, fmt.Sprintf(`"$id":%q,`, ids[i]), "", 1)
+	}
+	us = append(us, noID)
 	if level >= 1 {
 		us = append(us, mk("star/flat", flat, [4]J{{"b": ref("b.json"), "c": ref("c.json"), "d": ref("d.json")}, {"b1": in}, {"c1": str}, {"d1": in}}, ownDefs, noExtra))
 		us = append(us, mk("defs-chain/flat", flat, [4]J{{"x": ref("b.json#/$defs/BDef")}, {"y": ref("c.json#/$defs/CDef")}, {"z": ref("d.json#/$defs/DDef")}, {"d1": in}}, ownDefs, noExtra))
@@ -218,7 +236,10 @@ func c20(ctx *Ctx) {
 	validated := 0
 	for _, u := range unis {
 		for _, mp := range maps {
-			if u.name == "same-basename" && mp.name != "two-packages" && mp.name != "each-own-package" {
+			if u.name == "same-def-name/no-id" && mp.name != "defaults-stdout" && mp.name != "one-file" {
+				continue // without ids only the defaults apply
+			}
+			if strings.HasPrefix(u.name, "same-basename") && mp.name != "two-packages" && mp.name != "each-own-package" {
 				// x/common.json and y/common.json both yield the type name Common: they must live in different packages
 				// (same type name in one package: listed finding SAME_TYPE_NAME_DROPPED, exercised below)
 				continue
@@ -274,7 +295,7 @@ func c20(ctx *Ctx) {
 				states[name+"\n"+st.key()] = true
 				transitions += len(hs[i])
 			}
-			sameDef := u.name == "same-def-name/flat"
+			sameDef := strings.HasPrefix(u.name, "same-def-name/")
 			for i, h := range hs {
 				k := fmt.Sprint(h)
 				st := obs[k]
